@@ -295,7 +295,8 @@ pub fn item_pool(rng: &mut Rng) -> Vec<String> {
         v.push(format!("K:{}:{}:{}", SKI_A, rng.next() as u32, hex(&rng.bytes(klen))));
     }
     v.push(format!("K:{}:0:-", "ffffffffffffffffffffffffffffffffffffffff"));
-    for n in [0usize, 1, 2, 3, 16379, 16380] {
+    // counts around every power of two up to the limit: provider lists whose octet length sits on a buffer boundary
+    for n in [0usize, 1, 2, 3, 63, 64, 65, 127, 128, 129, 255, 256, 257, 511, 512, 513, 1023, 1024, 1025, 2048, 4096, 8192, 16379, 16380] {
         let ps: Vec<String> = (0..n).map(|i| ((i as u32).wrapping_mul(2654435761)).to_string()).collect();
         v.push(format!("A:{}:{}", rng.next() as u32, if ps.is_empty() { "-".into() } else { ps.join(",") }));
     }
